@@ -1053,7 +1053,7 @@ func (rc *recorder) large(runSeed int64, cases int) {
 		N := uint64(n)
 		far := uint64(1000000 + rng.Intn(9000000)) // slots
 		at := func(k uint64) uint64 { return pt + k*T }
-		nows := []uint64{0, pt, pt + 1, at(1) - 1, at(1), at(1) + 1, at(2), at(N) - 1, at(N), at(N) + 1, at(N + 1), at(2*N + 1) + 1,
+		nows := []uint64{0, pt, pt + 1, at(1) - 1, at(1), at(1) + 1, at(2), at(N) - 1, at(N), at(N) + 1, at(N + 1), at(2*N+1) + 1,
 			at(uint64(rng.Intn(3*n + 1))), at(uint64(rng.Intn(3*n+1))) + uint64(rng.Intn(int(T))), at(far) + 3}
 		if pt >= 5 {
 			nows = append(nows, pt-5)
